@@ -222,13 +222,16 @@ def build_shared_mps_qtz_map(mod: fx.GraphModule,
 
     # a searchable layer invoked more than once owns a single input quantizer and a single input
     # features calculator: the tensors fed to its call sites must be quantized (and pruned) alike,
-    # i.e. their producers belong to one component
+    # i.e. their producers belong to one component. It also owns a single output and a single
+    # weight quantizer: its call sites (and whatever is summed with either of them) belong to one
+    # component too, as in PIT's sharing graph
     call_sites: Dict[str, fx.Node] = {}
     for n in mod.graph.nodes:
         if is_layer(n, mod, tuple(mps_layer_map.keys())) and len(n.all_input_nodes) > 0:
             first = call_sites.setdefault(str(n.target), n)
             if first is not n:
                 sharing_graph.add_edge(first.all_input_nodes[0], n.all_input_nodes[0])
+                sharing_graph.add_edge(first, n)
 
     # each weakly connected component of the sharing graph must share the same quantizers
     sq_dict = {}
